@@ -3077,3 +3077,56 @@ mod tests {
         assert_eq!(clone.peek(&2), Some(&3));
     }
 }
+
+// ---------------------------------------------------------------------------------------------
+// verification hooks (feature `verif-hooks`): read-only structural audit. No effect when off.
+#[cfg(feature = "verif-hooks")]
+#[doc(hidden)]
+impl<K: Hash + Eq, V, E, S: BuildHasher> RawLRU<K, V, E, S> {
+    /// Structural audit of the intrusive list against the index.
+    /// 0 = well formed; otherwise the number of the first clause that is broken.
+    pub fn verif_audit(&self) -> u8 {
+        let n = self.map.len();
+        unsafe {
+            if self.head.is_null() || self.tail.is_null() || self.head == self.tail {
+                return 1;
+            }
+            if !(*self.head).prev.is_null() || !(*self.tail).next.is_null() {
+                return 2;
+            }
+            let mut prev = self.head;
+            let mut cur = (*self.head).next;
+            let mut i = 0;
+            while i < n {
+                if cur.is_null() || cur == self.tail || cur == self.head {
+                    return 3;
+                }
+                if (*cur).prev != prev {
+                    return 4;
+                }
+                let own_key: *const K = (*cur).key.as_ptr();
+                match self.map.get_key_value(&KeyRef { k: own_key }) {
+                    None => return 5,
+                    Some((kr, node)) => {
+                        if node.as_ptr() != cur {
+                            return 6;
+                        }
+                        if kr.k != own_key {
+                            return 7;
+                        }
+                    }
+                }
+                prev = cur;
+                cur = (*cur).next;
+                i += 1;
+            }
+            if cur != self.tail {
+                return 8;
+            }
+            if (*self.tail).prev != prev {
+                return 9;
+            }
+        }
+        0
+    }
+}
